@@ -301,6 +301,42 @@ def run(ctx: Ctx) -> int:
             )
     ctx.floor("C02.d-default-calls", n_def, 3)
 
+    # ---------------- C02.e every type accepted at declaration has an arm ----------------------------------
+    # add_argument accepts a hint whose origin is in root_types; adapt_typehints dispatches on tables of origins.
+    # A root type no arm tests for falls out of the if/elif chain and its values are returned UNCHECKED.
+    from .shared_rules import origin_table
+    from .srcmodel import dotted as _dotted
+
+    chain = next((n for n in ad2.body if isinstance(n, ast.If) and any(isinstance(c, ast.Compare) and ast.unparse(c.left) == "typehint" and isinstance(c.ops[0], ast.Eq) and _dotted(c.comparators[0]) == "Any" for c in ast.walk(n.test))), None)
+    ctx.need(chain is not None, "adapt_typehints: the if/elif chain starting at `typehint == Any`")
+    handled: Set[str] = set()
+    n_arms = 0
+    node_ = chain
+    while node_ is not None:
+        n_arms += 1
+        for c in [x for x in ast.walk(node_.test) if isinstance(x, ast.Compare) and len(x.ops) == 1 and ast.unparse(x.left) in ("typehint", "typehint_origin")]:
+            comp = c.comparators[0]
+            if isinstance(c.ops[0], (ast.Eq, ast.Is)):
+                handled.add(_dotted(comp) or "?")
+            elif isinstance(c.ops[0], ast.In):
+                if isinstance(comp, ast.Name):
+                    handled |= origin_table(ctx.repo, comp.id)
+                elif isinstance(comp, (ast.Set, ast.Tuple, ast.List)):
+                    handled |= {_dotted(e) or "?" for e in comp.elts}
+        node_ = node_.orelse[0] if len(node_.orelse) == 1 and isinstance(node_.orelse[0], ast.If) else None
+    roots_ = origin_table(ctx.repo, "root_types")
+    ROOT_ELSEWHERE = {"Unpack": "expanded into parameters at signature level (never reaches adapt_typehints as an origin)"}
+    left = sorted(roots_ - handled - set(ROOT_ELSEWHERE))
+    ctx.floor("C02.e-arms", n_arms, 12)
+    ctx.oblige(
+        "C02.e",
+        not left,
+        chain,
+        f"all {len(roots_)} root types accepted at declaration are tested for by one of the {n_arms} arms of adapt_typehints" if not left else f"root type(s) {left} are accepted at declaration but no arm of adapt_typehints tests for them: their values fall through the chain and are returned unchecked and unconverted (anything is accepted)",
+        fn=ad2,
+        construct="root types have arms",
+    )
+
     return ctx.finish(
         explanation=(
             "(a) The Union arm of adapt_typehints is abstracted to a finite automaton over per-iteration symbols V (member accepted, break), O (string fallback appended), "
